@@ -311,8 +311,164 @@ func buildHeader(h *Sx) *message.IKEHeader {
 	}
 }
 
+var buildMsgCtr int
+
 func buildMsg(s *Sx) *message.IKEMessage {
-	return &message.IKEMessage{IKEHeader: buildHeader(s.List[1]), Payloads: buildPayloads(s.List[2])}
+	m := &message.IKEMessage{IKEHeader: buildHeader(s.List[1]), Payloads: buildPayloads(s.List[2])}
+	buildMsgCtr++
+	if buildMsgCtr%3 == 0 {
+		rehouse(m)
+	}
+	return m
+}
+
+// rehouse moves every octet string and every container of a message into shared backing arrays, each field a
+// sub-slice whose spare capacity covers the fields that follow (what a caller gets who cuts its values out of one
+// buffer or one algorithm list).  The values are unchanged; code that appends to or writes through a field of the
+// message it was given now damages a neighbour, which the round-trip / purity / protect oracles then see.
+func rehouse(m *message.IKEMessage) {
+	var bs []*[]byte
+	var tcs []*message.TransformContainer
+	var tss []*message.IndividualTrafficSelectorContainer
+	var tcKind []int // which of the five containers of its proposal
+	addB := func(p *[]byte) {
+		if len(*p) > 0 {
+			bs = append(bs, p)
+		}
+	}
+	for _, pl := range m.Payloads {
+		switch x := pl.(type) {
+		case *message.SecurityAssociation:
+			for _, pr := range x.Proposals {
+				addB(&pr.SPI)
+				for ki, c := range []*message.TransformContainer{&pr.EncryptionAlgorithm, &pr.PseudorandomFunction, &pr.IntegrityAlgorithm, &pr.DiffieHellmanGroup, &pr.ExtendedSequenceNumbers} {
+					if len(*c) > 0 {
+						tcs = append(tcs, c)
+						tcKind = append(tcKind, ki)
+					}
+					for _, t := range *c {
+						addB(&t.VariableLengthAttributeValue)
+					}
+				}
+			}
+		case *message.KeyExchange:
+			addB(&x.KeyExchangeData)
+		case *message.IdentificationInitiator:
+			addB(&x.IDData)
+		case *message.IdentificationResponder:
+			addB(&x.IDData)
+		case *message.Certificate:
+			addB(&x.CertificateData)
+		case *message.CertificateRequest:
+			addB(&x.CertificationAuthority)
+		case *message.Authentication:
+			addB(&x.AuthenticationData)
+		case *message.Nonce:
+			addB(&x.NonceData)
+		case *message.Notification:
+			addB(&x.SPI)
+			addB(&x.NotificationData)
+		case *message.VendorID:
+			addB(&x.VendorIDData)
+		case *message.TrafficSelectorInitiator:
+			if len(x.TrafficSelectors) > 0 {
+				tss = append(tss, &x.TrafficSelectors)
+			}
+			for _, t := range x.TrafficSelectors {
+				addB(&t.StartAddress)
+				addB(&t.EndAddress)
+			}
+		case *message.TrafficSelectorResponder:
+			if len(x.TrafficSelectors) > 0 {
+				tss = append(tss, &x.TrafficSelectors)
+			}
+			for _, t := range x.TrafficSelectors {
+				addB(&t.StartAddress)
+				addB(&t.EndAddress)
+			}
+		case *message.Configuration:
+			for _, a := range x.ConfigurationAttribute {
+				addB(&a.Value)
+			}
+		case *message.PayloadEap:
+			if x.EAP != nil {
+				switch td := x.EAP.EapTypeData.(type) {
+				case *eap.EapIdentity:
+					addB(&td.IdentityData)
+				case *eap.EapNotification:
+					addB(&td.NotificationData)
+				case *eap.EapNak:
+					addB(&td.NakData)
+				case *eap.EapExpanded:
+					addB(&td.VendorData)
+				}
+			}
+		}
+	}
+	// placement order: reversed or rotated, never the message order (an in-place append of the field that follows
+	// in the message would otherwise write the values that are there already)
+	k := buildMsgCtr / 3
+	perm := func(n, i int) int {
+		if k%2 == 0 {
+			return n - 1 - i
+		}
+		return (i + 1 + k%(n+1)) % n
+	}
+	{
+		b2 := make([]*[]byte, len(bs))
+		for i := range bs {
+			b2[perm(len(bs), i)] = bs[i]
+		}
+		t2 := make([]*message.TransformContainer, len(tcs))
+		for i := range tcs {
+			t2[perm(len(tcs), i)] = tcs[i]
+		}
+		if k%3 == 2 { // grouped by kind: all encryption lists (cut from one list of supported algorithms), then all PRF lists, ...
+			t2 = t2[:0]
+			for ki := 0; ki < 5; ki++ {
+				for i := range tcs {
+					if tcKind[i] == ki {
+						t2 = append(t2, tcs[i])
+					}
+				}
+			}
+		}
+		s2 := make([]*message.IndividualTrafficSelectorContainer, len(tss))
+		for i := range tss {
+			s2[perm(len(tss), i)] = tss[i]
+		}
+		bs, tcs, tss = b2, t2, s2
+	}
+	total := 0
+	for _, p := range bs {
+		total += len(*p)
+	}
+	arena := make([]byte, 0, total+16)
+	for _, p := range bs {
+		off := len(arena)
+		arena = append(arena, *p...)
+		*p = arena[off:len(arena)] // capacity reaches to the end of the arena
+	}
+	nt := 0
+	for _, c := range tcs {
+		nt += len(*c)
+	}
+	ta := make(message.TransformContainer, 0, nt+4)
+	for _, c := range tcs {
+		off := len(ta)
+		ta = append(ta, *c...)
+		*c = ta[off:len(ta)]
+	}
+	ns := 0
+	for _, c := range tss {
+		ns += len(*c)
+	}
+	sa := make(message.IndividualTrafficSelectorContainer, 0, ns+4)
+	for _, c := range tss {
+		off := len(sa)
+		sa = append(sa, *c...)
+		*c = sa[off:len(sa)]
+	}
 }
 
 // payloadTypeCode: IKE payload type code of an input-form payload
